@@ -12,6 +12,12 @@ CHECKS = {
  "C02": dict(engine="treemc", cat="model_checking", sec="5/C02",
    text="Explicit-state search over the same tree space as C01 (k=2 quick, 3 thorough, all 8 configurations): in every state the tree is rendered with TogNMINotifications (PathElem) at the root and at every container/list-entry sub-root with PathElemPrefix=path(node), the notifications are applied to an empty root with UnmarshalNotifications, and leaves, leaf-lists and ordered-list order are compared with the reference Model. A dedicated sub-check drives the exposed ordered list.",
    technique="explicit-state BFS over tree-building sequences on the real implementation, gNMI round-trip law in every state and at every prefix", note=TREE_NOTE),
+ "C04": dict(engine="treemc", cat="model_checking", sec="5/C04",
+   text="Explicit-state search (k=2 quick, 3 thorough, all 8 configurations, including empty non-nil maps / ordered maps / leaf-lists): every state is deep-copied and checked for Model equality, for shared mutable memory by an exhaustive pointer-graph walk (pointees, maps, slice backing arrays reachable from both objects), and by overwriting everything reachable from the copy (then from the original) and comparing the other side with a pristine twin. MergeStructs gets the same walk against both inputs on all ordered pairs of k<=1 states x 4 option sets.",
+   technique="explicit-state BFS over tree-building sequences; aliasing decided by pointer-graph intersection plus in-place mutation against a twin", note=TREE_NOTE),
+ "C14": dict(engine="treemc", cat="model_checking", sec="5/C14",
+   text="Explicit-state search (k=2 quick, 3 thorough, all 8 configurations): every state is pruned as built and after BuildEmptyTree on the root and on every struct in the tree (incl. keyed, unkeyed and ordered list entries); oracle: returns normally, data Model unchanged, no container without set descendants left anywhere, second call changes nothing.",
+   technique="explicit-state BFS over tree-building sequences; invariant + idempotence law evaluated in every state", note=TREE_NOTE),
  "C08": dict(engine="valmc", cat="exploration", sec="5/C08",
    text="Small-scope exhaustive enumeration: every 1-2 element path over 3 names and 0-2 keys where one key takes every string of length 1..3 (thorough 1..4) over {a / [ ] = \\ space . e-acute} and the others a 12-value adversarial set; PathToString->StringToStructuredPath and the legacy string-slice form must return the path, and every produced string is hashed to decide injectivity directly.",
    technique="exhaustive enumeration of a bounded path alphabet against round-trip and injectivity laws on the real functions", note="values longer than the bound or outside the 9-character alphabet are not covered; proto.Equal is trusted"),
